@@ -535,6 +535,41 @@ func C01HistoryWorker(args []string) {
 	if len(args) >= 4 {
 		only = args[2:4]
 	}
+	if strings.HasPrefix(args[0], "~") {
+		// interleaved string-API history: A.Compare(x, y) immediately before B.Compare(x, y), for every pair
+		a, _ := dom.SysByName(args[0][1:])
+		b, _ := dom.SysByName(args[1])
+		as, bs := c01HistoryStrings(a), c01HistoryStrings(b)
+		if len(only) > 0 {
+			bs = only
+			as = nil
+			for _, s := range only {
+				s = strings.TrimPrefix(s, "v")
+				if a == semver.Go {
+					s = "v" + s
+				}
+				as = append(as, s)
+			}
+		}
+		var out strings.Builder
+		for i := range bs {
+			for j := range bs {
+				a.Compare(as[i], as[j])
+				if _, e1 := b.Parse(bs[i]); e1 != nil {
+					out.WriteByte('x')
+					continue
+				}
+				if _, e2 := b.Parse(bs[j]); e2 != nil {
+					out.WriteByte('x')
+					continue
+				}
+				a.Compare(as[j], as[i])
+				out.WriteByte("<=>"[core.Sign(b.Compare(bs[i], bs[j]))+1])
+			}
+		}
+		fmt.Println(out.String())
+		return
+	}
 	if args[0] != "-" {
 		a, _ := dom.SysByName(args[0])
 		first := only
@@ -562,7 +597,10 @@ func c01HistoryChild(a, b string, pair ...string) (string, error) {
 
 // c01History runs every ordered pair of systems as a two-step history.
 func c01History(run *core.Run) (histories, compares int64) {
-	type job struct{ a, b semver.System }
+	type job struct {
+		a, b        semver.System
+		interleaved bool
+	}
 	base := map[semver.System]string{}
 	var jobs []job
 	for _, b := range c01HistorySystems {
@@ -573,16 +611,20 @@ func c01History(run *core.Run) (histories, compares int64) {
 		base[b] = m
 		for _, a := range c01HistorySystems {
 			if a != b {
-				jobs = append(jobs, job{a, b})
+				jobs = append(jobs, job{a, b, false}, job{a, b, true})
 			}
 		}
 	}
 	var hs, cs int64
 	core.ParFor(len(jobs), func(i int) {
 		j := jobs[i]
-		m, err := c01HistoryChild(j.a.String(), j.b.String())
+		first := j.a.String()
+		if j.interleaved {
+			first = "~" + first
+		}
+		m, err := c01HistoryChild(first, j.b.String())
 		if err != nil {
-			core.Harness("C01 history %v then %v: %v", j.a, j.b, err)
+			core.Harness("C01 history %v then %v: %v", first, j.b, err)
 		}
 		atomic.AddInt64(&hs, 1)
 		atomic.AddInt64(&cs, int64(len(m)))
@@ -594,7 +636,7 @@ func c01History(run *core.Run) (histories, compares int64) {
 		for k := 0; k < len(m) && k < len(base[j.b]); k++ {
 			if m[k] != base[j.b][k] {
 				x, y := strs[k/n], strs[k%n]
-				run.Fail(core.Join("xhist", j.b.String(), j.a.String(), x, y), fmt.Sprintf("%v.Compare(%s, %s) is %c in a fresh process and %c after the same identifiers were compared in %v", j.b, x, y, base[j.b][k], m[k], j.a))
+				run.Fail(core.Join("xhist", j.b.String(), first, x, y), fmt.Sprintf("%v.Compare(%s, %s) is %c in a fresh process and %c after the same identifiers were compared in %v", j.b, x, y, base[j.b][k], m[k], first))
 				break
 			}
 		}
